@@ -6,7 +6,6 @@ package main
 
 import (
 	"fmt"
-	"go/types"
 	"strings"
 
 	"golang.org/x/tools/go/ssa"
@@ -27,126 +26,30 @@ func siteOf(in ssa.Instruction) Site {
 	return Site{b, 0}
 }
 
-// Tracker tracks nil-ness of one struct field along a path.
-type Tracker struct {
-	c        *Ctx
-	field    *types.Var
-	mayStore map[*ssa.Function]bool
-}
-
-const (
-	factUnknown = 0
-	factNil     = 1
-	factNonNil  = 2
-)
-
-func (c *Ctx) newTracker(f *types.Var) *Tracker {
-	return &Tracker{c: c, field: f, mayStore: c.mayStoreFns(f)}
-}
-
-func (t *Tracker) isLoad(v ssa.Value) bool {
-	u, ok := v.(*ssa.UnOp)
-	if !ok {
-		return false
-	}
-	fa, ok := u.X.(*ssa.FieldAddr)
-	return ok && fieldObj(fa.X.Type(), fa.Field) == t.field
-}
-
-// step updates the fact across one instruction.
-func (t *Tracker) step(in ssa.Instruction, fact int) int {
-	switch x := in.(type) {
-	case *ssa.Store:
-		if fa, ok := x.Addr.(*ssa.FieldAddr); ok && fieldObj(fa.X.Type(), fa.Field) == t.field {
-			if isConstNil(x.Val) {
-				return factNil
-			}
-			return factUnknown
-		}
-	case ssa.CallInstruction:
-		cc := x.Common()
-		if cal := cc.StaticCallee(); cal != nil {
-			if t.mayStore[cal] {
-				return factUnknown
-			}
-			// closures passed as arguments may run
-			for _, a := range cc.Args {
-				if mc, ok := a.(*ssa.MakeClosure); ok {
-					if fn, ok := mc.Fn.(*ssa.Function); ok && t.mayStore[fn] {
-						return factUnknown
-					}
-				}
-			}
-			return fact
-		}
-		if _, isB := cc.Value.(*ssa.Builtin); isB {
-			return fact
-		}
-		return factUnknown // dynamic / interface call: may do anything
-	}
-	return fact
-}
-
-// edgeFact: taking successor succ of b; returns new fact and whether feasible.
-func (t *Tracker) edge(b *ssa.BasicBlock, succ int, fact int) (int, bool) {
-	iff, ok := b.Instrs[len(b.Instrs)-1].(*ssa.If)
-	if !ok {
-		return fact, true
-	}
-	bo, ok := iff.Cond.(*ssa.BinOp)
-	if !ok {
-		return fact, true
-	}
-	var loadSide ssa.Value
-	if isConstNil(bo.Y) {
-		loadSide = bo.X
-	} else if isConstNil(bo.X) {
-		loadSide = bo.Y
-	} else {
-		return fact, true
-	}
-	if !t.isLoad(loadSide) {
-		return fact, true
-	}
-	isNE := bo.Op.String() == "!="
-	isEQ := bo.Op.String() == "=="
-	if !isNE && !isEQ {
-		return fact, true
-	}
-	// edge says: nonnil iff (isNE && succ==0) || (isEQ && succ==1)
-	nonnil := (isNE && succ == 0) || (isEQ && succ == 1)
-	want := factNil
-	if nonnil {
-		want = factNonNil
-	}
-	if fact != factUnknown && fact != want {
-		return fact, false
-	}
-	return want, true
-}
-
 // PathQ is a reachability query.
 type PathQ struct {
 	c       *Ctx
 	Fn      *ssa.Function
 	CutIn   func(ssa.Instruction) bool              // passing this instruction ends the path
 	CutEdge func(b *ssa.BasicBlock, succ int) bool // deleted edges
-	Track   *Tracker
-	NoBack  bool // do not follow back edges (target dominates source)
+	Facts   *Facts // optional path-sensitivity on repeated branch conditions
+	NoBack  bool   // do not follow back edges (target dominates source)
 }
 
 type pstate struct {
 	b    *ssa.BasicBlock
-	fact int
+	fact uint64
 }
+
+const factUnknown = uint64(0)
 
 // Reach searches from site `from` (exclusive of instructions before from.I)
 // for an instruction satisfying target. Returns the block path if found.
-func (q *PathQ) Reach(from Site, startFact int, target func(ssa.Instruction) bool) ([]string, bool) {
+func (q *PathQ) Reach(from Site, startFact uint64, target func(ssa.Instruction) bool) ([]string, bool) {
 	type item struct {
 		b    *ssa.BasicBlock
 		i    int
-		fact int
+		fact uint64
 		prev *item
 	}
 	seen := map[pstate]bool{}
@@ -177,8 +80,8 @@ func (q *PathQ) Reach(from Site, startFact int, target func(ssa.Instruction) boo
 				cut = true
 				break
 			}
-			if q.Track != nil {
-				fact = q.Track.step(in, fact)
+			if q.Facts != nil {
+				fact = q.Facts.step(in, fact)
 			}
 		}
 		if cut {
@@ -192,9 +95,9 @@ func (q *PathQ) Reach(from Site, startFact int, target func(ssa.Instruction) boo
 				continue
 			}
 			nf := fact
-			if q.Track != nil {
+			if q.Facts != nil {
 				var ok bool
-				nf, ok = q.Track.edge(it.b, si, fact)
+				nf, ok = q.Facts.edge(it.b, si, fact)
 				if !ok {
 					continue
 				}
@@ -263,16 +166,16 @@ func (c *Ctx) cutEdges(m LitMatch) func(b *ssa.BasicBlock, succ int) bool {
 
 // Requires: every path from entry to target passes an edge witnessing m
 // (REQ(T; m)). Returns offending path when violated.
-func (c *Ctx) Requires(fn *ssa.Function, target func(ssa.Instruction) bool, m LitMatch, tr *Tracker) ([]string, bool) {
-	q := &PathQ{c: c, Fn: fn, CutEdge: c.cutEdges(m), Track: tr}
+func (c *Ctx) Requires(fn *ssa.Function, target func(ssa.Instruction) bool, m LitMatch, tr *Facts) ([]string, bool) {
+	q := &PathQ{c: c, Fn: fn, CutEdge: c.cutEdges(m), Facts: tr}
 	path, found := q.Reach(entrySite(fn), factUnknown, target)
 	return path, !found
 }
 
 // MustPass: every path from entry to target passes an instruction matching via
 // (or an edge witnessing viaEdge, if non-nil).
-func (c *Ctx) MustPass(fn *ssa.Function, target, via func(ssa.Instruction) bool, viaEdge LitMatch, tr *Tracker) ([]string, bool) {
-	q := &PathQ{c: c, Fn: fn, CutIn: via, Track: tr}
+func (c *Ctx) MustPass(fn *ssa.Function, target, via func(ssa.Instruction) bool, viaEdge LitMatch, tr *Facts) ([]string, bool) {
+	q := &PathQ{c: c, Fn: fn, CutIn: via, Facts: tr}
 	if viaEdge != nil {
 		q.CutEdge = c.cutEdges(viaEdge)
 	}
@@ -282,13 +185,13 @@ func (c *Ctx) MustPass(fn *ssa.Function, target, via func(ssa.Instruction) bool,
 
 // NeverTwice: no path from just after a site matching x reaches a site
 // matching x. perIteration: back edges are not followed.
-func (c *Ctx) NeverTwice(fn *ssa.Function, x func(ssa.Instruction) bool, perIteration bool, tr *Tracker) (string, bool) {
+func (c *Ctx) NeverTwice(fn *ssa.Function, x func(ssa.Instruction) bool, perIteration bool, tr *Facts) (string, bool) {
 	for _, b := range fn.Blocks {
 		for i, in := range b.Instrs {
 			if !x(in) {
 				continue
 			}
-			q := &PathQ{c: c, Fn: fn, NoBack: perIteration, Track: tr}
+			q := &PathQ{c: c, Fn: fn, NoBack: perIteration, Facts: tr}
 			if path, found := q.Reach(Site{b, i + 1}, factUnknown, x); found {
 				return fmt.Sprintf("from %s via %s", c.ipos(in), strings.Join(path, " → ")), false
 			}
